@@ -57,6 +57,7 @@ def check(chk, repo):
                 rep.ev("CLIENT-nonempty", e, counted or any(nonempty_guard(g, pol, h) for g, pol in e.guards),
                        "H.remove() is not dominated by `not H.is_empty()` (nor is it the single removal of a loop "
                        "that runs once per node of a fully seeded queue)")
-    chk.floor("distinct H.update call sites in the models", sites, 5)
+    # (Prim, the supervised competition - shared or duplicated by the semi-supervised fit -, the two density clusterings)
+    chk.floor("distinct H.update call sites in the models", sites, 4)
     chk.undecided.append("extremal-element / exactly-once semantics over all operation histories")
     chk.assumptions.append("Python list indexing semantics; Heap is used single-threaded")
